@@ -84,6 +84,9 @@ def r2_handlers(m):
     me = PE.Obj({"_format": PE.Obj({"_is_free": True, "_is_strict": False, "_f2py_enabled": False}, fmt_props)})
     ev = PE.Evaluator(PE.module_regexes(m, RF))
     null_cls = m.key("Cpp_Null_Stmt", CPP) if m.has_class("Cpp_Null_Stmt", CPP) else None
+    fixc = m.funcs.get((m.modfile[RF], "_is_fix_comment"))
+    if fixc is None:
+        r.error("_is_fix_comment vanished")
     for kind in oracle:
         r.instances += 1
         cname = kind["cls"]
@@ -101,6 +104,18 @@ def r2_handlers(m):
                     bad = (s, "the reader does not deliver it as a directive item (handle_cpp_directive -> %r)" % (res,))
             except (PE.Unsupported, PE.PyRaise) as err:
                 r.error("handle_cpp_directive cannot be interpreted (%s)" % err)
+            # ... in fixed form as well: a '#' line is not a comment line (it would be dropped, or kept as a Comment)
+            if fixc is not None and s[:1] == "#":
+                for strict in (False, True):
+                    for f2py in (False, True):
+                        try:
+                            isc = ev.run_function(fixc.node, [s, strict, f2py])
+                        except (PE.Unsupported, PE.PyRaise) as err:
+                            r.error("_is_fix_comment cannot be interpreted (%s)" % err)
+                            isc = False
+                        if isc:
+                            bad = (s, "in fixed form _is_fix_comment(%r, isstrict=%s, f2py_enabled=%s) classes it as a comment line: the "
+                                      "directive is dropped (comments ignored) or becomes a Comment node" % (s, strict, f2py))
             line = s.strip()
             mine = heads(m, key)
             if cname == "Cpp_Null_Stmt":
